@@ -232,6 +232,8 @@ def programs(draw):
             "scenarios": [{"name": "Main", "pre": spre, "inv": sinv, "setup": setup,
                            "compose": None}],
             "toplevel": not (spre or sinv)}
+    if draw(st.booleans()):
+        prog["selfguards"] = True
     return prog, atoms
 
 
@@ -467,6 +469,8 @@ def static_features(prog):
         walk(b["body"], 0)
         if b["pre"]:
             feats.add("precondition")
+        if b["inv"] and prog.get("selfguards"):
+            feats.add("invariant-mentions-self")
         if b["inv"]:
             feats.add("invariant")
         if any(c.startswith("rej:") for c in b["pre"] + b["inv"]):
